@@ -719,8 +719,8 @@ team_class_lambda_f<T, S, N, L, C>::team_class_lambda_f(std::istream &in,
   if (!(in >> s))
     throw exception::data_format("Cannot read team size");
 
-  team_.reserve(s);
-  for (unsigned i(0); i < s; ++i)
+  // `s` comes from the stream: it isn't trusted for an up-front allocation.
+  for (decltype(s) i(0); i < s; ++i)
     team_.emplace_back(in, ss);
 
   if (!detail::class_names<N>::load(in))
